@@ -326,6 +326,65 @@ func c17HostileCases() []c17Hostile {
 		var sb strings.Builder
 		w.pkg.WriteTo(&sb)
 	}})
+	// structural inputs whose size is linear but whose number of paths is exponential / quadratic
+	lattice := func(w *c17World, n int) *types.Var {
+		// L<i>a and L<i>b both embed *L<i+1>a and *L<i+1>b: 2n structs, 2^n embedding paths
+		mk := func(name string) *types.Named {
+			return types.NewNamed(types.NewTypeName(token.NoPos, w.pkg.Types, name, nil), nil, nil)
+		}
+		var next [2]*types.Named
+		for i := n - 1; i >= 0; i-- {
+			var cur [2]*types.Named
+			for j, suf := range []string{"a", "b"} {
+				t := mk(fmt.Sprintf("L%d%s", i, suf))
+				var fs []*types.Var
+				if next[0] != nil {
+					for _, e := range next {
+						fs = append(fs, types.NewField(token.NoPos, w.pkg.Types, e.Obj().Name(), types.NewPointer(e), true))
+					}
+				} else {
+					fs = append(fs, types.NewField(token.NoPos, w.pkg.Types, "leaf"+suf, types.Typ[types.Int], false))
+				}
+				t.SetUnderlying(types.NewStruct(fs, nil))
+				cur[j] = t
+			}
+			next = cur
+		}
+		return types.NewParam(token.NoPos, w.pkg.Types, "lat", next[0])
+	}
+	for _, n := range []int{24, 60} {
+		n := n
+		l = append(l, c17Hostile{fmt.Sprintf("missing member of a %d-level diamond embedding lattice (MemberVal)", n), func() {
+			w := newC17World()
+			v := lattice(w, n)
+			cb := w.pkg.NewFunc(nil, "f", nil, nil, false).BodyStart(w.pkg)
+			cb.Val(v).MemberVal("nope", 0)
+		}})
+		l = append(l, c17Hostile{fmt.Sprintf("missing member of a %d-level diamond embedding lattice (MemberRef)", n), func() {
+			w := newC17World()
+			v := lattice(w, n)
+			cb := w.pkg.NewFunc(nil, "f", nil, nil, false).BodyStart(w.pkg)
+			cb.Val(v).MemberRef("nope")
+		}})
+		l = append(l, c17Hostile{fmt.Sprintf("deepest member of a %d-level diamond embedding lattice", n), func() {
+			w := newC17World()
+			v := lattice(w, n)
+			cb := w.pkg.NewFunc(nil, "f", nil, nil, false).BodyStart(w.pkg)
+			cb.Val(v).MemberVal("leafb", 0)
+		}})
+	}
+	l = append(l, c17Hostile{"member through an embedding chain 2000 long", func() {
+		w := newC17World()
+		var inner types.Type = types.NewStruct([]*types.Var{types.NewField(token.NoPos, w.pkg.Types, "x", types.Typ[types.Int], false)}, nil)
+		for i := 0; i < 2000; i++ {
+			t := types.NewNamed(types.NewTypeName(token.NoPos, w.pkg.Types, fmt.Sprintf("C%d", i), nil), inner, nil)
+			inner = types.NewStruct([]*types.Var{types.NewField(token.NoPos, w.pkg.Types, t.Obj().Name(), t, true)}, nil)
+		}
+		v := types.NewParam(token.NoPos, w.pkg.Types, "chain", inner)
+		cb := w.pkg.NewFunc(nil, "f", nil, nil, false).BodyStart(w.pkg)
+		cb.Val(v).MemberVal("x", 0).EndStmt()
+		cb.Val(v).MemberVal("nope", 0)
+	}})
 	return l
 }
 
@@ -376,7 +435,7 @@ func runC17(a *runArgs) error {
 	c17Imp = importer.ForCompiler(token.NewFileSet(), "source", nil)
 	m := &meta{Property: "C17", Seed: a.Seed, Tier: a.Tier, PerShard: 1,
 		Strata: map[string]int{}, Dist: map[string]int{}, Known: map[string]int{},
-		Rule: "grid: every operation (unary/binary operators, IncDec, AssignOp, Assign, Send, Index, Slice, Member, Call, TypeAssert, conversions, builtins, literals, statement headers, initialisers) x every operand kind (untyped constants of each kind, nil, variables of every type class), binary operations x all pairs; hostile stream in a resource-limited child: shift counts up to 2^63 and negative, 10^4-digit literals, nesting depth 2000-5000; distinct = distinct (operation, operands); all non-trivial"}
+		Rule: "grid: every operation (unary/binary operators, IncDec, AssignOp, Assign, Send, Index, Slice, Member, Call, TypeAssert, conversions, builtins, literals, statement headers, initialisers) x every operand kind (untyped constants of each kind, nil, variables of every type class), binary operations x all pairs; hostile stream in a resource-limited child: shift counts up to 2^63 and negative, 10^4-digit literals, nesting depth 2000-5000, diamond embedding lattices (2n structs, 2^n paths) and embedding chains with present and missing selectors; distinct = distinct (operation, operands); all non-trivial"}
 	operands := c17Operands()
 	step := 1
 	n := 0
